@@ -111,7 +111,9 @@ PROPS = {
              "unrelated, multi-label suffix, absent, unparseable) x 6 schemes (http, https, ws, wss, ftp, data); random part: domain= lists "
              "with 1-6 included/excluded entries (parents, children, duplicates) combined with random types/party. The pattern always matches "
              "the URL, so options decide. evaluation = per-rule matcher and single-rule engine vs the O-options interpreter; non-trivial = "
-             "reference says the rule applies; distinct = hash of (line, url, source, type) (bounded sample per rule; all counted in observations).",
+             "reference says the rule applies; distinct = hash of (line, url, source, type) (bounded sample per rule; all counted in observations). "
+             "neighbours: engines (optimised 3 in 4) of 2-3 plain or /regex/ rules sharing their index token with different type/party/"
+             "important/match-case options; the verdict for each rule's URL (both letter cases) must be the OR of the per-rule references.",
         assumptions=["an absent/unparseable initiator cannot satisfy an inclusion list and vacuously satisfies an exclusion-only list (ABP)",
                      "exceptions apply to document requests without $document (uBO-style, as documented in the code)",
                      "`|ws://` covers both websocket schemes here; the ws-vs-wss distinction is judged (and recorded) under C02"],
@@ -206,7 +208,8 @@ PROPS = {
         rule="case = (1-8 redirect / redirect-rule / @@...$redirect rules aimed at one URL family with priorities incl. negative, zero, equal, "
              "i32 extremes, malformed ':x' and ':' suffixes, exceptions re-using an existing modifier text or naming another resource, plus "
              "plain blocking / exception / important noise; a random resource store: names, aliases, all 11 MIME kinds + template + unknown, "
-             "permissioned and missing resources; 3 requests). evaluation = engine (redirect, matched, important, exception) vs the reference "
+             "permissioned and missing resources, aliases colliding with other names/aliases and late duplicate names (a resource whose name or any "
+             "alias is taken is rejected whole, per add_resource's contract; the reference is given the effective store); 3 requests). evaluation = engine (redirect, matched, important, exception) vs the reference "
              "(arg-max priority among non-cancelled matching candidates, set-valued on ties; data URL iff resource resolves, is redirectable "
              "and needs no permission; redirect= blocks, redirect-rule does not). non-trivial = >= 2 matching candidates or >= 1 candidate and "
              ">= 1 matching exception; distinct = hash of (rules, store, request).",
@@ -219,7 +222,8 @@ PROPS = {
              "fragment, several '#', non-ASCII, percent escapes, keys that are prefixes/case variants of rule parameters; all request types). "
              "evaluation = engine rewritten_url vs the independent rewriter applied with the parameters of the matching rules, plus the "
              "oracle-free monitors: output is a deletion of whole query pieces, differs from the input, never reported together with an "
-             "important block. non-trivial = >= 1 matching removeparam rule and a non-empty query; distinct = hash of (rules, request).",
+             "important block; the same requests on a live Blocker before and after an explicit optimize() must give the engine's rewrite. "
+             "non-trivial = >= 1 matching removeparam rule and a non-empty query; distinct = hash of (rules, request).",
         assumptions=["matching of the removeparam rules themselves is the per-rule matcher's (C02/C03)"],
         floors=(300_000, 100_000, 6_000_000, 400_000),
     ),
@@ -306,7 +310,8 @@ PROPS = {
              "(2 formats x 3 rule-type options x debug on/off, random permission mask), parse_hosts_style, read_list_metadata, "
              "FilterSet::add_filter_list / add_filter under catch_unwind; plus lossy-UTF-8 random byte strings; metadata blocks with each "
              "multi-byte character placed at every offset 1000..1030 (straddling byte 1024) and Expires edge cases. indep: lists with "
-             "injected junk and mutated rules, Engine(L) vs Engine(L minus lines that parse_filter rejects): serialized bytes and battery. "
+             "injected junk (incl. comment/header look-alikes such as `[zoneid]=`) and mutated rules, Engine(L) vs Engine(L minus lines that "
+             "parse_filter rejects) vs an engine fed every line separately through add_filter: serialized bytes and battery. "
              "hosts: hosts-file entries (ip + host, bare host, case, www., IDN, comments) vs `||normalised-host^`: bytes and battery. types: "
              "NetworkOnly / CosmeticOnly engines vs engines built from only the network / cosmetic lines: bytes. non-trivial = input reaches a "
              "specific parser; list has >= 1 rejected and >= 1 accepted line; hosts list blocks; list has both kinds. distinct = hash of seed / list.",
@@ -323,6 +328,9 @@ PROPS = {
                 "mixed queries from different offsets, discard policy 1ns/1ns, 50us/20us or default, yields / micro-sleeps / spins injected "
                 "through the pre-acquire hook (between critical sections); every concurrent answer compared with the sequential answer "
                 "computed beforehand on the same engine; thread panics and poisoned locks reported; batch completion under a 120 s watchdog. "
+                "rounds: 3-6 concurrent batches (3-12 threads) on one engine alternating with a state change made on yet another thread "
+                "(use/enable/disable tags over tagged regex twins, serialize+reload into the same engine); every answer compared with a fresh "
+                "engine built sequentially for the model state. "
                 "The H5 hook records the regex-manager acquisition order. tsan: the same concurrent workload (smaller) in a ThreadSanitizer "
                 "build of harness + crate + std (-Zbuild-std), event logging off so that the hook adds no synchronisation; any report is a "
                 "violation. non-trivial = a batch whose acquisition order has >= 2N thread switches and involves all N threads (distinct = "
